@@ -262,10 +262,26 @@ def _prefixes(ctx):
     return ctx._prefix_table
 
 
+def _keywords(ctx):
+    """keyword spellings of the tokenizer (alphabetic entries of its own keyword table)"""
+    import prec as _prec
+
+    from hirlib import walk as _walk
+
+    tm = _prec.tokenizer_map(ctx.lib)
+    kws = {k: v for k, v in tm.items() if k and (k[0].isalpha() or k[0] == "_")}
+    # procedure names are inserted through ProcedureKind::name()
+    pn = ctx.lib.find_fn("ast::ProcedureKind::name")
+    for n in _walk(pn["body"]):
+        if n.get("k") == "Lit" and n["lit"].get("lk") == "str":
+            kws.setdefault(n["lit"]["v"], "Procedure")
+    return kws
+
+
 PROPERTIES["C08"]["rules"].append(("FFISIG", lambda ctx: rule_ffisig(ctx.lib, ctx.nbt)))
 PROPERTIES["C08"]["explanation"] += " (FFISIG) For every native function the sequence of argument extractions in its Rust body (pop_front + unsafe_as_{quantity,string,list,datetime,bool}, as_scalar().unwrap()) agrees in number and kind with its body-less declaration in the .nbt modules and the arity registered in ffi::functions(), so those panics are unreachable for type-checked calls."
 PROPERTIES["C13"]["rules"] += [
-    ("UNITFORMS", lambda ctx: nbt_rules.rule_unitforms(ctx.nbt, _prefixes(ctx))),
+    ("UNITFORMS", lambda ctx: nbt_rules.rule_unitforms(ctx.nbt, _prefixes(ctx), _keywords(ctx))),
     ("OPTAB.prefix", lambda ctx: nbt_rules.rule_prefix_tables(ctx.lib)),
 ]
 PROPERTIES["C13"]["explanation"] += " (UNITFORMS) The complete finite set of (prefix, alias) forms accepted according to the decorators of the standard library and the prefix table extracted from PrefixParser::prefixes() has exactly one reading per identifier and collides with no variable or function name of any module. (OPTAB.prefix) Prefix::as_string_long/short print every prefix in a spelling the parser table maps back to the same prefix."
@@ -324,6 +340,15 @@ PROPERTIES["C21"]["rules"] += [("OBLIG.assert", lambda ctx: rule_oblig(ctx.lib, 
 PROPERTIES["C21"]["explanation"] += " (OBLIG) The checker constrains assert's argument to Bool and all assert_eq arguments to one type (dimension types in the 3-argument form), so the procedures' unsafe_as_* extractions cannot panic."
 PROPERTIES["C15"]["rules"] += [("QUOTE", lambda ctx: rule_quote(ctx.lib))]
 PROPERTIES["C15"]["explanation"] += " (QUOTE) Every user string payload (string parts, @name/@url/@description/@example) reaches markup::string only through escape_numbat_string and between quote operators, so the echoed text re-reads as the same string literal."
+
+from cmptab import rule_cmptab, rule_slot  # noqa: E402
+
+PROPERTIES["C09"]["rules"] += [("SLOT", lambda ctx: rule_slot(ctx.lib))]
+PROPERTIES["C09"]["explanation"] += " (SLOT) The slot operands of GetLocal/GetUpvalue come from a reverse search over the scope vector, so every name refers to its innermost binding."
+PROPERTIES["C16"]["rules"] += [("CMPTAB", lambda ctx: rule_cmptab(ctx.lib))]
+PROPERTIES["C16"]["explanation"] += " (CMPTAB) The comparator that canonicalises dimension types (a table over pairs of DTypeFactor variants) is antisymmetric and transitive, so equal factors are brought together and the canonical form of a signature — the basis of comparing an annotation with the inferred type — is unique."
+PROPERTIES["C02"]["rules"] += [("CMPTAB", lambda ctx: rule_cmptab(ctx.lib))]
+PROPERTIES["C02"]["explanation"] += " (CMPTAB) dimension-type canonicalisation uses an antisymmetric, transitive variant comparator (necessary for `requires two dimensions to be equal` to be decided on canonical forms)."
 
 NOT_APPLICABLE = {
     "C03": "numerical agreement of conversion factors over 500 units is a statement about run-time values; no structural clause is a necessary condition that is not already covered under C04/C11/C12 (static analysis cannot bound the arithmetic)",
